@@ -282,12 +282,13 @@ struct Fixture {
     bool failed = false;
     std::string failure;
     long balance = 0;       // successful enq - successful deq of the scheduled program
-    bool fc = false, tls_in_baton = true;
+    bool fc = false, tls_in_baton = true, drain = true;
 
     explicit Fixture( Case const& c )
     {
         typedef cds::gc::HP HP;
         typedef cds::gc::DHP DHP;
+        drain = c.optl( "drain", 1 ) != 0;
         unsigned compact = 1 + unsigned( c.index % 2 ), pass = 1 + unsigned( c.index % 4 );
         std::string const& v = c.variant;
         tls_in_baton = c.optl( "fc_tls_in_baton", 1 ) != 0;
@@ -383,6 +384,19 @@ struct Fixture {
             std::ostringstream os;
             os << "flat combining: " << fcwatch::freed_linked << " publication record(s) freed while still linked in the publication list";
             failure = os.str();
+        }
+        // sequential drain by the main thread after every scheduled operation: a lost or duplicated item becomes visible
+        // in the history even when the program itself dequeues too little (`--drain 0` switches it off)
+        if ( drain ) {
+            uint64_t t = 1000000;
+            for ( int guard = 0; guard < 64; ++guard ) {
+                long v = 0;
+                bool ok = s->deq( v );
+                out << "O 91 " << t << ' ' << t + 1 << " deq :";
+                if ( ok ) out << " 1 " << v << '\n'; else out << " 0\n";
+                t += 2;
+                if ( !ok ) break;
+            }
         }
         s->shutdown( &out );
     }
